@@ -10,7 +10,7 @@
    The specification side (AST, printer, denotation) lives in harness/tokast.py; the oracle compares it with the
    implementation on exhaustive small and random deep ASTs on every run. *)
 From Coq Require Import List ZArith QArith Ascii String Bool.
-From GBS Require Import Model.PyStr Model.Num Model.Bond Model.Token Src.SrcBond Proofs.BondP Proofs.TokenP.
+From GBS Require Import Model.PyStr Model.Num Model.Bond Model.Token Src.SrcBond Proofs.BondP Proofs.TokenP Model.DistFam Src.SrcDist Model.Stoch Proofs.TotalP Proofs.StochP.
 Import ListNotations.
 Open Scope Z_scope.
 
@@ -46,6 +46,17 @@ Definition summary (s : string) : option (list (str * option Z * order)) :=
   end.
 
 (* a descriptor in a branch that follows another branch binds to the branching atom, not to the methyl group *)
+(* the stochastic-object layer (Model/Stoch.v): for every accepted object the descriptor table is the descriptors of the repeat tokens
+   followed by those of the end tokens, every token was parsed at the offset "descriptors before it", the left terminal carries number 0
+   and the right terminal the number of descriptors of the object *)
+Theorem C02_object_descriptor_table_partial : forall (valid_atom : str -> bool) text s, parse_stoch valid_atom text = OK s ->
+  ps_bds s = (flat_map k_bds (ps_rep s) ++ flat_map k_bds (ps_end s))%list /\
+  units_at valid_atom 0 (ps_rep s) /\ units_at valid_atom (List.length (flat_map k_bds (ps_rep s))) (ps_end s) /\
+  (exists raw pre, parse_descr raw 0 pre None = OK (ps_left s)) /\
+  (exists raw pre, parse_descr raw (Z.of_nat (List.length (ps_bds s))) pre None = OK (ps_right s)).
+Proof. intros v text s H. destruct (parse_stoch_spec v text s H) as (A & B & C & _ & D & E). auto. Qed.
+Print Assumptions C02_object_descriptor_table_partial.
+
 Example C02_example_branch_after_branch :
   summary "[<]CC(C)([>])C(=O)OC" = Some [(lit "<", Some 0, OSingle); (lit ">", Some 1, OSingle)].
 Proof. vm_compute. reflexivity. Qed.
